@@ -1415,8 +1415,46 @@ def run(only=None):
         ARB.extend(arbitrary_parsers(tier == "thorough"))
         tasks = []
         decl = 0
+        # parse direction of every enumerated field: from the bits of every PDU kind built at its base values, every field of <= 8 bits
+        # over all 2^w raw values (defined or not), the rest of the PDU untouched
+        extra_inputs = {}
+        fam_label = {"csbk": "csbk", "data_header": "data_header", "short_lc": "short_lc"}
+        for k_ in all_kinds():
+            try:
+                base_bits = k_.build({n_: k_.alpha[n_][0] for n_ in k_.fields}).as_bits().to01()
+            except Exception:  # noqa: BLE001
+                continue
+            lab = fam_label.get(k_.family) or ({96: "full_lc_96", 77: "full_lc_77"}.get(len(base_bits)) if k_.family == "full_lc" else None)
+            if lab is None:
+                continue
+            for f_, w_ in k_.widths.items():
+                if w_ > 8:
+                    continue
+                pos = [i for i, o in enumerate(k_.owner) if o == f_]
+                if len(pos) != w_ or pos != list(range(pos[0], pos[0] + w_)):
+                    continue
+                for v in range(1 << w_):
+                    extra_inputs.setdefault(lab, set()).add(base_bits[:pos[0]] + bits_of(v, w_) + base_bits[pos[0] + w_:])
+                # ... and with every other narrow field at each of its defined (alphabet) values: a raw value of one field is often only
+                # looked at for particular values of another (NACK reason / service type)
+                budget = 20000
+                for g_, wg in k_.widths.items():
+                    if g_ == f_ or wg > 8 or budget <= 0:
+                        continue
+                    posg = [i for i, o in enumerate(k_.owner) if o == g_]
+                    if len(posg) != wg or posg != list(range(posg[0], posg[0] + wg)):
+                        continue
+                    for gv in list(k_.alpha[g_])[:16]:
+                        if not isinstance(gv, int) or gv >= (1 << wg):
+                            continue
+                        bb = base_bits[:posg[0]] + bits_of(gv, wg) + base_bits[posg[0] + wg:]
+                        for v in range(1 << w_):
+                            extra_inputs.setdefault(lab, set()).add(bb[:pos[0]] + bits_of(v, w_) + bb[pos[0] + w_:])
+                        budget -= 1 << w_
         for i, entry in enumerate(ARB):
             ARB_INPUTS[entry[0]] = arb_inputs(entry)
+            have = set(ARB_INPUTS[entry[0]])
+            ARB_INPUTS[entry[0]] += sorted(x for x in extra_inputs.get(entry[0], ()) if x not in have)
             n = len(ARB_INPUTS[entry[0]])
             decl += n
             tasks += [(i, lo, hi) for lo, hi in par.chunks(n, max(1, min(32, n // 300)))]
@@ -1469,6 +1507,25 @@ def run(only=None):
                         acc.case(nontrivial=True, calls=4, outcome=(rn, t2.name), sample=case if len(acc.samples) < 1 else None)
             return acc
 
+        # content coincidence: an unconfirmed block whose user data happens to begin with what a confirmed block begins with (a tunnelled
+        # confirmed block): the untyped and the unconfirmed view still see L bits of user data
+        for rn, (cls, T, L) in RATES.items():
+            for dbsn in (0, 1, 0x55, 0x7F):
+                for j in range(3):
+                    rest = env.det_bytes(f"c03-coincide-{rn}-{dbsn}-{j}", (L - 16) // 8)
+                    case = {"rate": rn, "dbsn": dbsn, "rest": rest.hex()}
+                    try:
+                        inner = cls(data=rest, dbsn=dbsn, packet_type=T.Confirmed).as_bits()
+                        outer = cls(data=inner.tobytes(), packet_type=T.Unconfirmed)
+                        ob = outer.as_bits()
+                        for how, back in (("from_bits", cls.from_bits(bitarray(ob))), ("from_bits_typed(Unconfirmed)", cls.from_bits_typed(bitarray(ob), T.Unconfirmed))):
+                            if bytes(back.data) != inner.tobytes() or back.as_bits() != ob:
+                                s.violation(f"{rn}:unconfirmed_block_that_looks_like_a_confirmed_one_is_decoded_differently:{how}",
+                                            {**case, "packet_type": back.packet_type.name, "data_octets": len(back.data)},
+                                            "an unconfirmed block built from fields whose user data begins with a valid serial number + CRC-9 does not parse back to its user data")
+                    except Exception as e:  # noqa: BLE001
+                        s.violation(f"{rn}:exception_coincidence:" + exc_sig(e), case, repr(e))
+                    s.case(nontrivial=True, calls=4, outcome=(rn, "coincidence"))
         tasks = []
         for rn, (cls, T, L) in RATES.items():
             vecs = spaces.small_scope_messages(L, 1, extra=[env.det_bits(f"c03-conv-{rn}-{i}", L) for i in range(4)] + [("11111111" + "00000000") * (L // 16), ("10100101") * (L // 8)])
